@@ -269,6 +269,7 @@ func lower(s string) string {
 
 var ddlTemplates = []string{"CREATE TABLE t_%d (a int)", "ALTER TABLE t_%d ADD COLUMN b int", "DROP TABLE t_%d",
 	"RENAME TABLE t_%d TO u", "TRUNCATE TABLE t_%d", "SET @v_%d = 3", "create index i_%d on t (a)", "Drop database d_%d"}
+var inTxDDL = []string{"CREATE TEMPORARY TABLE tmp_%d (a int)", "DROP TEMPORARY TABLE IF EXISTS tmp_%d", "SET @in_tx_%d = 1", "create temporary table t%d like t"}
 var dmlTemplates = []string{"INSERT INTO t VALUES (%d)", "UPDATE t SET a = %d", "DELETE FROM t WHERE a = %d", "insert into t select %d"}
 var unknownStmts = []string{"SAVEPOINT sp1", "RELEASE SAVEPOINT sp1", "GRANT ALL ON *.* TO u", "REVOKE ALL ON *.* FROM u",
 	"FLUSH TABLES", "ANALYZE TABLE t", "XA START 'x'", "XA END 'x'", "OPTIMIZE TABLE t", "savepoint a", "REPAIR TABLE t"}
@@ -299,7 +300,13 @@ func (b *Builder) Unit(kind hist.UnitKind) hist.Unit {
 		u.BeginTS = b.TS()
 		ns := 1 + r.Intn(maxi(1, b.O.MaxStmts))
 		for i := 0; i < ns; i++ {
-			switch r.Intn(8) {
+			switch r.Intn(9) {
+			case 8:
+				// statements that do not commit implicitly may be logged inside a transaction
+				// (CREATE/DROP TEMPORARY TABLE, SET): they belong to the transaction
+				id := b.ID()
+				u.Stmts = append(u.Stmts, hist.Stmt{Kind: hist.StmtQuery, SQL: fmt.Sprintf(inTxDDL[r.Intn(len(inTxDDL))], r.Intn(1000)) + fmt.Sprintf(" /* id=%d */", id),
+					DB: u.DB, Charset: b.charset(), TS: b.TS(), ID: id})
 			case 0:
 				id := b.ID()
 				u.Stmts = append(u.Stmts, hist.Stmt{Kind: hist.StmtQuery, SQL: fmt.Sprintf(dmlTemplates[r.Intn(len(dmlTemplates))], r.Intn(1000)) + fmt.Sprintf(" /* id=%d */", id),
